@@ -326,21 +326,19 @@ func CalculateRewards(
 		// Normalize share
 		normalizedShare := rawShare / totalShare
 		totalPoolRewards := uint64(float64(pots.Rewards) * normalizedShare)
+		// Floating-point rounding must never hand out more than what is left
+		// of the pot
+		if remaining := pots.Rewards - totalDistributed; totalPoolRewards > remaining {
+			totalPoolRewards = remaining
+		}
 		poolRewardAmounts[poolID] = totalPoolRewards
 		totalDistributed += totalPoolRewards
 	}
 
-	// Adjust the last pool's total rewards to ensure sum equals reward pot exactly
+	// Give the undistributed remainder to the last pool so that the sum equals
+	// the reward pot exactly (totalDistributed never exceeds the pot)
 	if totalDistributed != pots.Rewards && len(poolRewardAmounts) > 0 {
-		// Calculate adjustment - this may overflow in extreme cases, but Cardano values are reasonable
-		adjustment := int64(
-			pots.Rewards,
-		) - int64(
-			totalDistributed,
-		) // #nosec G115
-		poolRewardAmounts[lastPoolID] = uint64(
-			int64(poolRewardAmounts[lastPoolID]) + adjustment,
-		) // #nosec G115
+		poolRewardAmounts[lastPoolID] += pots.Rewards - totalDistributed
 	}
 
 	// Now distribute rewards for each pool
@@ -461,11 +459,17 @@ func distributePoolRewards(
 
 	if totalPoolStake > 0 {
 		ownerStakeRatio := float64(ownerStake) / float64(totalPoolStake)
-		operatorRewards += uint64(
+		operatorShare := uint64(
 			float64(
 				totalPoolRewards-poolCost,
 			) * (margin + (1.0-margin)*ownerStakeRatio),
 		)
+		// Floating-point rounding must never give the operator more than the
+		// rewards above the pool cost
+		if operatorShare > totalPoolRewards-poolCost {
+			operatorShare = totalPoolRewards - poolCost
+		}
+		operatorRewards += operatorShare
 	} else {
 		// If no stake, operator gets all rewards above cost
 		operatorRewards = totalPoolRewards
@@ -491,6 +495,11 @@ func distributePoolRewards(
 						stakeholderRewardsTotal,
 					),
 				)
+				// Floating-point rounding must never assign more than what
+				// is left of the stakeholder rewards
+				if reward > stakeholderRewardsTotal-assigned {
+					reward = stakeholderRewardsTotal - assigned
+				}
 				delegatorRewards[stakeKey] = reward
 				assigned += reward
 			}
